@@ -11,6 +11,7 @@ import (
 	"reflect"
 	"strings"
 	"time"
+	_ "time/tzdata" // named locations without depending on the host's zoneinfo
 	"unicode/utf8"
 
 	"github.com/google/uuid"
@@ -453,6 +454,19 @@ func Run(c *gen.Ctx) error {
 	for i := 0; i < 100; i++ {
 		times = append(times, time.Unix(int64(rl.U64()%253402300800), int64(rl.Intn(1e9))).In(time.FixedZone("r", (rl.Intn(27)-12)*3600)))
 	}
+	// named locations whose offset changes over the year (and over the decades): instants on both sides of the
+	// transitions, of one and the same *time.Location value, one after the other
+	for _, name := range []string{"Europe/Berlin", "America/New_York", "Europe/London", "Australia/Lord_Howe", "Europe/Moscow", "Asia/Kolkata"} {
+		loc, lerr := time.LoadLocation(name)
+		if lerr != nil {
+			continue
+		}
+		for _, y := range []int{2024, 1985, 2012} {
+			for _, m := range []time.Month{time.January, time.July, time.March, time.October, time.December, time.June} {
+				times = append(times, time.Date(y, m, 15, 9, 30, 0, int(rl.Intn(1e9)), loc))
+			}
+		}
+	}
 	for _, t := range times {
 		out := m2b(graphql.MarshalTime(t))
 		ok := false
@@ -605,4 +619,3 @@ func AddUnm(c *gen.Ctx, meta *gen.Meta, prop string, req []string) (int, map[str
 	}
 	return unm.Len(), unmOutcomes, unmDescr[5], nil
 }
-
